@@ -1375,7 +1375,7 @@ impl SourceTextModule {
 
             //     d. If module.[[PendingAsyncDependencies]] = 0, perform ExecuteAsyncModule(module).
             if pending_async_dependencies == 0 {
-                self.execute_async(module_self, context);
+                self.execute_async(module_self, context)?;
             }
         } else {
             // 13. Else,
@@ -1464,7 +1464,7 @@ impl SourceTextModule {
     /// Abstract operation [`ExecuteAsyncModule ( module )`][spec].
     ///
     /// [spec]: https://tc39.es/ecma262/#sec-execute-async-module
-    fn execute_async(&self, module_self: &Module, context: &mut Context) {
+    fn execute_async(&self, module_self: &Module, context: &mut Context) -> JsResult<()> {
         // 1. Assert: module.[[Status]] is either evaluating or evaluating-async.
         debug_assert!(matches!(
             &*self.status.borrow(),
@@ -1529,8 +1529,9 @@ impl SourceTextModule {
 
         // 9. Perform ! module.ExecuteModule(capability).
         // 10. Return unused.
+        // NOTE: JavaScript errors reject `capability`; only an engine error (e.g. a runtime limit
+        //       hit before the first `await`) is returned, and it is reported to the caller.
         self.execute(module_self, Some(capability), context)
-            .expect("async modules cannot directly throw");
     }
 
     /// Abstract operation [`GatherAvailableAncestors ( module, execList )`][spec].
@@ -2148,7 +2149,7 @@ fn async_module_execution_fulfilled(module: &Module, context: &mut Context) -> J
         let has_tla = m_src.code.has_tla;
         if has_tla {
             // i. Perform ExecuteAsyncModule(m).
-            m_src.execute_async(&m, context);
+            m_src.execute_async(&m, context)?;
             continue;
         }
         // c. Else,
